@@ -1178,6 +1178,8 @@ func (p projSpec) build() string {
 	return b.String()
 }
 
+var projViol = 0
+
 func runProject(p projSpec) {
 	stats["project_builds"]++
 	root, err := os.MkdirTemp("", "verif-cache-proj")
@@ -1215,8 +1217,9 @@ func runProject(p projSpec) {
 	})
 	fail := func(kind, detail string) {
 		nviol++
+		projViol++
 		stats["violations"]++
-		if nviol > 10 {
+		if projViol > 3 {
 			return
 		}
 		in := map[string]any{"progs": p.String(), "mode": "project", "schedule": nil}
